@@ -146,7 +146,7 @@ def call_vectors(fname: str, sig: dict):
     nreq = len([p for p in pos if not p["has_default"]])
     out, seen = [], set()
 
-    def emit(p_index, pname, n_pos, var_len, variant):
+    def emit(p_index, pname, n_pos, var_len, variant, others_as_names=False):
         args = []
         for i in range(n_pos):
             if i == p_index:
@@ -171,6 +171,9 @@ def call_vectors(fname: str, sig: dict):
                     args.append(s)
         if p_index >= len(args):
             return
+        if others_as_names:
+            # the everyday PySpark style: every other column argument is given by NAME as well
+            args = [{"t": "name", "name": a["name"]} if a["t"] == "col" else a for a in args]
         key = repr(args)
         if key in seen:
             return
@@ -181,6 +184,7 @@ def call_vectors(fname: str, sig: dict):
         if not accepts_name(p["ann"]):
             continue
         emit(i, p["name"], max(nreq, i + 1), 0, "min")
+        emit(i, p["name"], max(nreq, i + 1), 0, "min-names", others_as_names=True)
         emit(i, p["name"], len(pos), 0, "full")
         if var:
             emit(i, p["name"], len(pos), 1, "var1")
@@ -188,6 +192,8 @@ def call_vectors(fname: str, sig: dict):
         for k in (1, 2, 3):
             for j in range(k):
                 emit(len(pos) + j, var[0]["name"], len(pos), k, f"var{k}")
+        for j in range(2):
+            emit(len(pos) + j, var[0]["name"], len(pos), 2, "var2-names", others_as_names=True)
     return out
 
 
@@ -200,6 +206,8 @@ def materialise(args, F, cname: str, as_col: bool):
             vals.append(F.col(cname) if as_col else cname)
         elif t == "col":
             vals.append(F.col(a["name"]))
+        elif t == "name":
+            vals.append(a["name"])
         elif t == "int":
             vals.append(int(a["v"]))
         elif t == "float":
@@ -224,6 +232,8 @@ def coq_arg(a, cname: str, as_col: bool) -> str:
         return f"({'SCol' if as_col else 'SStr'} {strlit(cname)})"
     if t == "col":
         return f"(SCol {strlit(a['name'])})"
+    if t == "name":
+        return f"(SStr {strlit(a['name'])})"
     if t == "int":
         return f"(SInt {zlit(a['v'])})"
     if t == "float":
